@@ -252,7 +252,8 @@ def plan(ctx):
   json.dump(_BASE, open(os.path.join(scratch(), 'base.json'), 'w'))
   ops = all_ops()
   # quick: first operation ranges over the parse+compile operations (P and R are made of the same calls); thorough: over all
-  tasks = [('hist', [list(op)], not ctx.thorough, ctx.seed) for op in ops if ctx.thorough or op[0] == 'C']
+  # first operation: the parse+compile operations (thorough: also the compile-twice operations); P is the first half of C
+  tasks = [('hist', [list(op)], not ctx.thorough, ctx.seed) for op in ops if op[0] == 'C' or (ctx.thorough and op[0] == 'R')]
   seeds = list(range(32 if ctx.thorough else 4)) + ['random']
   corpus = sorted(glob.glob(os.path.join(ctx.repo, 'integration_tests', '*.l')))
   if not ctx.thorough:
